@@ -173,6 +173,7 @@ func walLeft(t *testing.T, cl *ckit.Cluster, x *ids) []evJ {
 	}
 	_ = l.Close()
 	cl.Reopen()
+	watchInfra(cl)
 	return out
 }
 
@@ -189,7 +190,7 @@ type crashRig struct {
 }
 
 func newCrashRig(t *testing.T, sh crashShape, tag string) *crashRig {
-	cl := ckit.NewCluster(t, ckit.Options{})
+	cl := newCluster(t, ckit.Options{})
 	cl.Wipe()
 	pod := "p" + tag
 	addPod(cl, pod)
@@ -304,6 +305,7 @@ func (r *crashRig) crashAt(a *ckit.Addr, first *ckit.Addr, id string) *crashCase
 	crashed := absState(crashSnap, x, pendingOf(pend, x, r.nodes))
 	cl.Crash()
 	cl.Reopen()
+	watchInfra(cl)
 	cl.C.DisasterRecover(cl.Ctx())
 	cl.Quiesce()
 	final := cl.Snapshot()
@@ -377,13 +379,19 @@ func genCrash(t *testing.T, out *hx.Out, budget int) {
 			if n >= budget {
 				break
 			}
-			c := rig.crashAt(a, first, fmt.Sprintf("crash-%d-%d", si, pi))
-			if c == nil {
-				continue
+			emitted := false
+			emitGuarded(t, out, func() any {
+				c := rig.crashAt(a, first, fmt.Sprintf("crash-%d-%d", si, pi))
+				if c == nil {
+					return nil
+				}
+				finishIDs(c)
+				emitted = true
+				return c
+			})
+			if emitted {
+				n++
 			}
-			finishIDs(c)
-			out.Emit(c)
-			n++
 		}
 		rig.cl.Close()
 	}
